@@ -107,6 +107,7 @@ class _Run:
         self.route_of_task: Dict[Any, str] = {}
         self.trailers_sent: List[Tuple[str, Any]] = []
         self.no_md_routes: set = set()
+        self.feeders: List[Any] = []
         self.lost_at: Optional[float] = None
         self.faulted = False
 
@@ -383,6 +384,7 @@ class _Run:
             await run.pause("feed-pause")
             ch.close()
         task = self.loop.create_task(feed(), name=f"feeder-{c.idx}")
+        self.feeders.append(task)
         self.stats["probe:request-stream-from-AsyncChannel"] += 1
         return ch, "AsyncChannel", task
 
@@ -484,6 +486,9 @@ class _Run:
             e = t.exception()
             if e is not None:
                 raise e
+        for tk in self.feeders:      # a feeder of the harness dying of an exception must not go unnoticed
+            if tk.done() and not tk.cancelled() and tk.exception() is not None:
+                raise tk.exception()
         self._oracle()
         nontrivial = len(self.calls) >= 2 or any(c.md.client_streaming or c.md.server_streaming for c in self.calls)
         return nontrivial, loop.steps, loop.time()
